@@ -66,7 +66,7 @@ func (d *doc) recomputeInvalid() {
 // Helper names; the behaviour of a helper is a fixed function of its name (and, for
 // c19mix, of the host), so that the injected runner, the shell-script helpers of the
 // exec phase and the model all agree on what "the helper outputs" are.
-var helperNames = []string{"c19creds", "c19tok", "c19nf", "c19err", "c19mix", "c19gone"}
+var helperNames = []string{"c19creds", "c19tok", "c19nf", "c19err", "c19mix", "c19dot", "c19gone"}
 
 var mixPatterns = [][2]string{{"h0", "creds"}, {"h1", "token"}, {"h2", "nf"}, {"h3", "err"}}
 
@@ -80,6 +80,11 @@ func helperKind(helper, host string) string {
 	case "c19nf":
 		return "nf"
 	case "c19err":
+		return "err"
+	case "c19dot":
+		// A helper that exists but cannot be run: in the exec phase its program is found
+		// through a relative PATH element, which os/exec refuses (exec.ErrDot).  That is
+		// not "helper not found", so it is an error like any other.
 		return "err"
 	case "c19gone":
 		return "missing"
